@@ -214,9 +214,34 @@ func init() {
 	Register(&Check{ID: "C05", Level: "exploration",
 		Rule: "one case = one generated workflow (incl. several leaf branches, a leaf without out-ports, RunTo) under one tape-chosen schedule; liveness = the incarnation reaches RUN-RETURNED (a state with nothing runnable and no timer is a deadlock); safety evaluated on the snapshot the workflow program takes right after Run returns. distinct = distinct event-log hash; non-trivial = >=2 tasks and >=1 non-default choice",
 		Run: func(c *Case) Verdict {
-			w := Generate(c.Tape, tierProfile(profC05, c.Tier))
-			if profC05.RunTo && c.Tape.Choose(simrt.StGen, 4, 0) == 1 {
-				pickRunTo(c.Tape, w)
+			var w *WF
+			switch c.Tape.Choose(simrt.StGen, 8, 0) {
+			case 1:
+				// RunTo through a chain of parameter connections, possibly with a
+				// dangling parameter stream next to a dangling file stream
+				w = paramChainWF(c)
+			case 2:
+				// a bundled component between command processes: Run must return
+				var kind string
+				w, kind = componentCase(c)
+				if kind == "splitter" || kind == "concat" {
+					// (their consumers are not predicted by the reference: liveness only)
+					c.Sample = kind + ": " + sample(w)
+					inc := RunInc(w, c.Tape, nil, 0, IncOpts{KillAt: -1, Strategy: strategyOf(c.Tape), Trace: c.Trace})
+					c.Absorb(inc)
+					if v, ok := inconclusiveEnd(inc); ok {
+						return v
+					}
+					if inc.Sim.End == simrt.EndDeadlock {
+						return Viol("deadlock", deadlockSig(inc), "Run never returns: %s", endDesc(inc))
+					}
+					return OK()
+				}
+			default:
+				w = Generate(c.Tape, tierProfile(profC05, c.Tier))
+				if profC05.RunTo && c.Tape.Choose(simrt.StGen, 4, 0) == 1 {
+					pickRunTo(c.Tape, w)
+				}
 			}
 			c.Sample = sample(w)
 			ex := Eval(w)
